@@ -608,8 +608,8 @@ class Evaluator:
                 b = self._module_binding(f.id)
                 if isinstance(b, ast.FunctionDef):
                     return self.call_function(b, args, kwargs)
-                if f.id in ('frozenset', 'bytes', 'sum', 'repr', 'iter', 'next', 'filter', 'hasattr', 'callable', 'getattr', 'hex', 'oct', 'bin', 'round', 'float', 'range', 'divmod'):
-                    r = {'frozenset': frozenset, 'bytes': bytes, 'sum': sum, 'repr': repr, 'iter': iter, 'next': next, 'filter': filter, 'hasattr': hasattr, 'callable': callable, 'getattr': getattr, 'hex': hex, 'oct': oct, 'bin': bin, 'round': round, 'float': float, 'range': range, 'divmod': divmod}[f.id](*args, **kwargs)
+                if f.id in ('frozenset', 'bytes', 'sum', 'repr', 'iter', 'next', 'filter', 'hasattr', 'callable', 'getattr', 'hex', 'oct', 'bin', 'round', 'float', 'range', 'divmod', 'type', 'id'):
+                    r = {'frozenset': frozenset, 'bytes': bytes, 'sum': sum, 'repr': repr, 'iter': iter, 'next': next, 'filter': filter, 'hasattr': hasattr, 'callable': callable, 'getattr': getattr, 'hex': hex, 'oct': oct, 'bin': bin, 'round': round, 'float': float, 'range': range, 'divmod': divmod, 'type': type, 'id': id}[f.id](*args, **kwargs)
                     return list(r) if f.id in ('filter', 'range') else r
                 raise AnalysisError(f'call of unmodelled function {f.id}')
             if isinstance(f, ast.Attribute):
